@@ -748,19 +748,20 @@ CLAUSES = [
            desc='get_in_units(set_in_units(v,u),u) = v to 4 eps; set_in_units = v*factor; set_literal("v u") = v*factor; shapes kept; '
                 'None / "scaled" units'),
     Clause('invariance', oracle_invariance, g9.invariance_cases, quick=12000, thorough=160000,
-           min_share={'nt': 0.4, 'expanded': 0.14, 'distinct_cfgs_3': 0.29, 'dimensional': 0.44},
+           min_share={'nt': 0.4, 'expanded': 0.14, 'distinct_cfgs_3': 0.29, 'dimensional': 0.44, 'kw_reordered': 0.2},
            max_share={'range_skip': 0.05},
            desc='same-dimension expression pairs (class substitution / expansion from my dimension table): conversion A -> B gives the '
                 'same number under three working-unit configurations (1e-10)'),
     Clause('history', oracle_history, g9.history_cases, quick=1200, thorough=40000,
-           min_share={'nt': 0.4},
+           min_share={'nt': 0.5, 'only_charge': 0.25, 'only_energy': 0.18, 'only_length': 0.18, 'only_mass': 0.18, 'only_time': 0.1,
+                      'revisit': 0.18, 'extra_exprs': 0.3},
            desc='walks of 3-8 working-unit choices in one process, consecutive named choices differing in exactly one quantity '
                 '(name changed / dropped / added; keywords in a drawn order; occasional seed, SI and same-choice steps): after every '
                 'reset each chosen unit is one, a revisited choice gives the same table, a fixed battery of %d compound expressions '
                 '(%d dimension classes) and the drawn expressions agree with my evaluator over the current table through parse, '
                 'set_in_units and get_in_units (1e-12), and %d same-dimension conversions keep their value along the walk (1e-10)'
                 % (len(BATTERY), BATTERY_NCLASS, len(BATTERY_PAIRS))),
-    Clause('named', oracle_named, enumerate=named_enumerate, nshards=1, min_share={'nt': 0.37, 'refusal': 0.01},
+    Clause('named', oracle_named, enumerate=named_enumerate, nshards=1, min_share={'nt': 0.37, 'refusal': 0.01, 'kw_orders_24': 0.2, 'kw_orders_6': 0.17},
            desc='exhaustive: every non-over-determined choice of <= 4 named working units, keywords passed in EVERY order: each '
                 'chosen unit is one (1e-12) via unit[], parse and get_in_units, the table is the same after different previous '
                 'configurations and for every keyword order; documented ValueError refusals'),
